@@ -97,11 +97,15 @@ class UCGEInitialize(UCGInitialize):
         bit_target = self.str_target[self.num_qubits - tree_level]
 
         old_mult, old_controls, target = self._define_mult(children, parent, tree_level)
-        nc, mult = self._simplify(old_mult, tree_level)
-        mult_controls = [x for x in old_controls if x not in nc]
 
         if self.preserve:
-            self._preserve_previous(mult, mult_controls, r_gate, target)
+            # ``r_gate`` indexes the complete multiplexer and the extracted gate is
+            # controlled by all other qubits, so it must be taken out before the
+            # repeated entries are removed.
+            self._preserve_previous(old_mult, old_controls, r_gate, target)
+
+        nc, mult = self._simplify(old_mult, tree_level)
+        mult_controls = [x for x in old_controls if x not in nc]
 
         ucg = self._apply_ucg(mult, mult_controls, target)
         ucg.dont_carry = nc
